@@ -12,7 +12,7 @@ from ..gen import mesh as G
 
 PID = "C19"
 TITLE = "Samplers stay on their domain; Bezier evaluation matches Bernstein form"
-LEAN_MODULES = ["Mouette.Props.C19", "Mouette.Props.C19Source", "Mouette.Props.C19Ext"]
+LEAN_MODULES = ["Mouette.Props.C19", "Mouette.Props.C19Source", "Mouette.Props.C19Ext", "Mouette.Props.C19Hist"]
 REQUIRED_THEOREMS = [
     # sampling
     "box_uniform_contained", "box_grid_contained", "box_grid_count", "sphere_on_sphere", "ball_in_ball",
@@ -41,6 +41,10 @@ REQUIRED_THEOREMS = [
     "wrapPts_spec", "wrapSurface_spec", "polyline_out", "surface_out", "surface_out_no_normals", "sampled_normals_list",
     "wrapBox_spec", "pad3_spec", "grid_resolution_nearest_root", "grid_resolution_nearest_root_rat",
     "grid_resolution_integer_test", "grid_count_nearest_power", "grid_resolution_zero",
+    # round 3 — Props/C19Hist: histories on one object (heap model of de_casteljau) and input representation
+    "evaluation_keeps_control_net", "evaluation_history_pure", "source_evaluation_history_pure",
+    "evaluation_layout_independent", "inplace_update_refuted", "evaluation_representation_independent",
+    "patch_representation_independent", "sampler_history_pure",
 ]
 TRUSTED = [
     "Lean 4.33.0 kernel; axioms ⊆ {propext, Classical.choice, Quot.sound}",
@@ -50,6 +54,10 @@ TRUSTED = [
     "interpolation + probability vector of sample_polyline, range guard + loop bounds + update expression of de_casteljau "
     "read as an imperative in-place loop, row/column ranges and parameters of BezierPatch._evaluate_row/evaluate/as_surface) "
     "with bridge lemmas and (b) the recorded-stream correspondence of this run",
+    "Model/BezierHeap.lean: de_casteljau on an explicit heap (shallow copy of the control list, stores re-bind slots): the two "
+    "facts are re-extracted from the source (dcWorksOnCopy, dcStoreRebinds); numpy arithmetic `t*a + (1-t)*b` is assumed to "
+    "allocate a fresh array (T5). The samplers' purity w.r.t. their domain arguments is a structural check of the translator "
+    "(no store into mesh/box/centre, attributes computed with persistent=False, float output buffer) plus the history cases",
     "Model/SamplingWrap.lean (return_point_cloud / return_normals as model functions) is tied to the code by the structural "
     "checks of the translator (which array is wrapped / returned) and by the oracle, not by the driver protocol",
     "numpy.random.{normal,uniform,random,choice} are replaced by a recorded stream: their distributions (normal direction "
@@ -66,7 +74,12 @@ RULE = ("sampler calls with recorded random streams (centres != 0, radii on both
         "empty boxes, polylines/triangulated surfaces from the shared generators incl. single-edge/single-face, normals/point-cloud "
         "switches) and Bezier curves/patches (degree 0-6, dim 1-4, parameters incl. 0, 1 and out-of-range, exports with unequal "
         "sample counts, custom positions); non-trivial = distinct case, call succeeded and returned >= 1 point (samplers) / "
-        ">= 1 accepted parameter (evaluation) / >= 1 edge or face (exports)")
+        ">= 1 accepted parameter (evaluation) / >= 1 edge or face (exports). Round 3: 40 % of the cases hand the numbers over as "
+        "Python ints / numpy ints / float32 / plain ndarray / tuples (case data = exact values; float32 compared at float32 precision), "
+        "parameters as int / np.float32 / np.float64 / 0-d arrays; 30 % of the sampler cases make 1-2 earlier calls on the SAME centre / "
+        "box / mesh object (other options and draws, attributes already stored on the mesh, vertices moved between the calls); histories "
+        "of evaluations / exports on ONE BezierCurve / BezierPatch (end points again at the end, control net read back by value from the "
+        "object and from the caller's array); default arguments (mode omitted, as_surface(), as_polyline()), sample counts 0 and 1")
 
 FR = Fraction
 ONE_MINUS = FR(2 ** 53 - 1, 2 ** 53)          # largest float < 1
@@ -113,6 +126,9 @@ def _scale(case):
 
 
 def _tol(case):
+    if case.get("rep") == "f32" or case.get("trep") == "f32":
+        # float32 inputs: numpy keeps float32 intermediates (weak Python scalars); the statement is met at that precision
+        return 4e-6 * _scale(case) + 1e-9
     return 1e-9 * _scale(case) + 1e-12
 
 
@@ -213,10 +229,115 @@ def _built(case):
     return _built_cached(json.dumps({k: case[k] for k in ("t", "kind", "V", "E", "F") if k in case}, sort_keys=True))
 
 
-def _fresh_mesh(case):
+def _mode(case):
+    """mode of a sample_AABB call; None = argument omitted (documented default 'uniform')"""
+    return "uniform" if case.get("mode") is None else case["mode"]
+
+
+def _ival(x):
+    f = FR(x)
+    if f.denominator != 1: raise ValueError(f"case marked integer-valued holds {x}")
+    return int(f)
+
+
+def _point_obj(vals, rep, vec=True):
+    """a point (centre / box corner / vertex / control point) as the caller hands it over, in representation `rep`"""
+    import numpy as np
+    import mouette as M
+    if rep in (None, "float"):
+        return M.Vec(*[fl(v) for v in vals]) if vec else [fl(v) for v in vals]
+    if rep == "int": return M.Vec(*[_ival(v) for v in vals]) if vec else [_ival(v) for v in vals]
+    if rep == "npint": return np.array([_ival(v) for v in vals], dtype=np.int32)
+    if rep == "f32": return np.array([fl(v) for v in vals], dtype=np.float32)
+    if rep == "nd": return np.array([fl(v) for v in vals], dtype=np.float64)
+    if rep == "tuple": return tuple(fl(v) for v in vals)
+    if rep == "list": return [fl(v) for v in vals]
+    if rep == "ituple": return tuple(_ival(v) for v in vals)
+    raise AssertionError(rep)
+
+
+def _scalar_obj(v, rep):
+    import numpy as np
+    if rep in (None, "float", "tuple", "list"): return fl(v)
+    if rep in ("int", "ituple"): return _ival(v)
+    if rep == "npint": return np.int64(_ival(v))
+    if rep == "f32": return np.float32(fl(v))
+    if rep == "nd": return np.array(fl(v))
+    raise AssertionError(rep)
+
+
+def _f32(x):
+    import numpy as np
+    return fs(float(np.float32(fl(x))))
+
+
+def _reprify(case, rep):
+    """rewrite the numbers of a case so that they are exactly representable in `rep` (the case always records the exact
+    values handed to the library) and mark the case"""
+    if rep in (None, "float"): return case
+    integer = rep in ("int", "npint", "ituple")
+    def q(x): return fs(FR(round(FR(x)))) if integer else (_f32(x) if rep == "f32" else x)
+    def qq(o): return [qq(x) for x in o] if isinstance(o, list) else q(o)
+    t = case["t"]
+    if t in ("sphere", "ball"):
+        case["c"] = qq(case["c"]); r = q(case["r"])
+        if FR(r) <= 0: r = "1"
+        case["r"] = r
+    elif t == "box":
+        lo = qq(case["lo"]); hi = qq(case["hi"])
+        if integer and all(FR(a) < FR(b) for a, b in zip(case["lo"], case["hi"])):   # keep non-empty boxes non-empty
+            hi = [h if FR(l) < FR(h) else fs(FR(l) + 1) for l, h in zip(lo, hi)]
+        case["lo"], case["hi"] = lo, hi
+    elif t in ("polyline", "surface"):
+        allV = [case["V"]] + [pr["V"] for pr in case.get("prior", []) if "V" in pr]
+        if integer:
+            # integer lattice positions by an exact similarity (generator coordinates are multiples of 1/64, moved copies of
+            # 1/128): no rounding, so the conditioning guaranteed by the mesh generators is kept; otherwise keep floats
+            if not all((FR(c) * 128).denominator == 1 for V in allV for v in V for c in v):
+                return case
+            conv = lambda V: [[fs(FR(c) * 128) for c in v] for v in V]
+        else:
+            conv = qq
+            if rep == "f32" and any(FR(_f32(c)) != FR(c) for V in allV for v in V for c in v):
+                return case          # float32 would round the positions (and could flatten a thin face): keep floats
+        case["V"] = conv(case["V"])
+        for pr in case.get("prior", []):
+            if "V" in pr: pr["V"] = conv(pr["V"])
+    elif "P" in case:
+        case["P"] = qq(case["P"])
+    case["rep"] = rep
+    return case
+
+
+def _mesh_with(case, V):
+    """build the mouette mesh of a polyline/surface case with vertices in the case's representation"""
+    import mouette as M
+    rep = case.get("rep")
+    d = M.mesh.RawMeshData()
+    if rep == "npint":
+        # int64 rows: with int32 vertex arrays mouette's geometry helpers (cross / norm in attributes.face_area, face_normals)
+        # overflow already for coordinates of a few hundred (numpy integer arithmetic) - reported as an observation for the
+        # owners of geometry/attributes, not demanded from the samplers
+        import numpy as np
+        d.vertices += [np.array([_ival(c) for c in v], dtype=np.int64) for v in V]
+    else:
+        d.vertices += [_point_obj(v, rep) for v in V]
     if case["t"] == "polyline" or case.get("kind") == "polyline":
-        return G.build_polyline({"V": [[fl(c) for c in v] for v in case["V"]], "E": case["E"]})
-    return G.build_surface({"V": [[fl(c) for c in v] for v in case["V"]], "F": case["F"]})
+        d.edges += [tuple(e) for e in case["E"]]
+        return M.mesh.PolyLine(d)
+    d.faces += [list(f) for f in case["F"]]
+    return M.mesh.SurfaceMesh(d)
+
+
+def _fresh_mesh(case):
+    return _mesh_with(case, case["V"])
+
+
+def _views(case):
+    """the calls made on ONE domain object: the prior calls (overrides of n / options / draws / vertex positions), then
+    the call the case is about"""
+    base = {k: v for k, v in case.items() if k != "prior"}
+    return [dict(base, **p) for p in case.get("prior", [])] + [base]
 
 
 def _stream_for(case):
@@ -245,43 +366,74 @@ def _points_of(ret):
     return [[float(c) for c in row] for row in a]
 
 
-def run_sampler(case):
-    """Calls the real sampler under the recorded stream.
-    Returns dict(err=None|token, exc=Exception, pts=[[float]], normals=[[float]]|None, stream=Stream, kind_ret=...)"""
+def run_sampler_all(case):
+    """Calls the real sampler under recorded streams: every prior call, then the main call, all on the SAME domain
+    object (centre / box / mesh built once). Returns [(view, result)], result = dict(err, exc, pts, normals, stream, is_pc)."""
     import numpy as np
     import mouette as M
     from mouette import sampling as S
     t = case["t"]
-    st = _stream_for(case)
-    out = {"err": None, "exc": None, "pts": None, "normals": None, "stream": st, "is_pc": False}
+    rep = case.get("rep")
+    views = _views(case)
+    res = []
+    dom = {}
     try:
-        with patched(st):
-            if t == "sphere":
-                ret = S.sample_sphere(M.Vec(*[fl(x) for x in case["c"]]), fl(case["r"]), case["n"], return_point_cloud=case.get("pc", False))
-            elif t == "ball":
-                ret = S.sample_ball(M.Vec(*[fl(x) for x in case["c"]]), fl(case["r"]), case["n"], return_point_cloud=case.get("pc", False))
-            elif t == "box":
-                from mouette.geometry import AABB
-                box = AABB([fl(x) for x in case["lo"]], [fl(x) for x in case["hi"]])
-                ret = S.sample_AABB(box, case["n"], mode=case["mode"], return_point_cloud=case.get("pc", False))
-            elif t == "polyline":
-                ret = S.sample_polyline(_fresh_mesh(case), case["n"], return_point_cloud=case.get("pc", False))
-            elif t == "surface":
-                ret = S.sample_surface(_fresh_mesh(case), case["n"], return_point_cloud=case.get("pc", False), return_normals=case.get("normals", False))
-                if case.get("normals", False):
-                    if case.get("pc", False):
-                        att = ret.vertices.get_attribute("normals")
-                        out["normals"] = [[float(c) for c in att[i]] for i in range(len(ret.vertices))]
-                    else:
-                        ret, nr = ret
-                        out["normals"] = [[float(c) for c in row] for row in np.asarray(nr, dtype=float).reshape((-1, 3))]
-            else:
-                raise AssertionError(t)
-        out["is_pc"] = hasattr(ret, "vertices")
-        out["pts"] = _points_of(ret)
+        if t in ("sphere", "ball"):
+            dom["c"] = _point_obj(case["c"], rep); dom["r"] = _scalar_obj(case["r"], rep)
+        elif t == "box":
+            from mouette.geometry import AABB
+            dom["box"] = AABB(_point_obj(case["lo"], rep, vec=False), _point_obj(case["hi"], rep, vec=False))
+        else:
+            dom["mesh"] = _mesh_with(case, views[0]["V"]); dom["V"] = views[0]["V"]
+            if case.get("pre_attr"):
+                # attributes of the same name / meaning already stored on the mesh by the user
+                if t == "polyline": M.attributes.edge_length(dom["mesh"])
+                else:
+                    M.attributes.face_area(dom["mesh"]); M.attributes.face_normals(dom["mesh"])
     except Exception as e:  # noqa
-        out["err"] = _err(e); out["exc"] = e
-    return out
+        return [(views[-1], {"err": _err(e), "exc": e, "pts": None, "normals": None, "stream": Stream(), "is_pc": False})]
+    for view in views:
+        st = _stream_for(view)
+        out = {"err": None, "exc": None, "pts": None, "normals": None, "stream": st, "is_pc": False}
+        pc = view.get("pc", False)
+        try:
+            if t in ("polyline", "surface") and view["V"] != dom["V"]:
+                import numpy as _np
+                for i, v in enumerate(view["V"]):          # the user moves the vertices between two calls
+                    dom["mesh"].vertices[i] = _np.array([_ival(c) for c in v], dtype=_np.int64) if rep == "npint" else _point_obj(v, rep)
+                dom["V"] = view["V"]
+            with patched(st):
+                if t == "sphere":
+                    ret = S.sample_sphere(dom["c"], dom["r"], view["n"], return_point_cloud=pc)
+                elif t == "ball":
+                    ret = S.sample_ball(dom["c"], dom["r"], view["n"], return_point_cloud=pc)
+                elif t == "box":
+                    kw = {} if view["mode"] is None else {"mode": view["mode"]}
+                    ret = S.sample_AABB(dom["box"], view["n"], return_point_cloud=pc, **kw)
+                elif t == "polyline":
+                    ret = S.sample_polyline(dom["mesh"], view["n"], return_point_cloud=pc)
+                elif t == "surface":
+                    ret = S.sample_surface(dom["mesh"], view["n"], return_point_cloud=pc, return_normals=view.get("normals", False))
+                    if view.get("normals", False):
+                        if pc:
+                            att = ret.vertices.get_attribute("normals")
+                            out["normals"] = [[float(c) for c in att[i]] for i in range(len(ret.vertices))]
+                        else:
+                            ret, nr = ret
+                            out["normals"] = [[float(c) for c in row] for row in np.asarray(nr, dtype=float).reshape((-1, 3))]
+                else:
+                    raise AssertionError(t)
+            out["is_pc"] = hasattr(ret, "vertices")
+            out["pts"] = _points_of(ret)
+        except Exception as e:  # noqa
+            out["err"] = _err(e); out["exc"] = e
+        res.append((view, out))
+    return res
+
+
+def run_sampler(case):
+    """result of the main (last) call"""
+    return run_sampler_all(case)[-1][1]
 
 
 def _strip_pad(pts, d):
@@ -310,11 +462,134 @@ def _integerise(case):
     return case
 
 
-def _bezier_objs(case):
+def _net_rep(case):
+    return case.get("rep") or ("int" if case.get("ints") else "float")
+
+
+def _is_curve(case):
+    return case["t"] in ("curve", "cpoly", "chist")
+
+
+def _net_held(case):
+    """the control net as the caller holds it and hands it to the constructor, in the case's representation"""
+    import numpy as np
+    rep = _net_rep(case)
+    P = case["P"]
+    if rep in ("npint", "f32", "nd"):
+        dt = {"npint": np.int64, "f32": np.float32, "nd": np.float64}[rep]
+        conv = (lambda c: _ival(c)) if rep == "npint" else fl
+        if _is_curve(case): return np.array([[conv(c) for c in p] for p in P], dtype=dt)
+        return np.array([[[conv(c) for c in p] for p in row] for row in P], dtype=dt)
+    pt = {"float": lambda p: [fl(c) for c in p], "int": lambda p: [_ival(c) for c in p], "list": lambda p: [fl(c) for c in p],
+          "tuple": lambda p: tuple(fl(c) for c in p), "ituple": lambda p: tuple(_ival(c) for c in p)}[rep]
+    wrap = tuple if rep in ("tuple", "ituple") else list
+    if _is_curve(case): return wrap(pt(p) for p in P)
+    return wrap(wrap(pt(p) for p in row) for row in P)
+
+
+def _held_values(held):
+    """exact values of a caller-held control net (nested sequences / ndarray) as nested lists of Fractions"""
+    import numpy as np
+    if isinstance(held, (list, tuple)) or (isinstance(held, np.ndarray) and held.ndim > 0):
+        return [_held_values(x) for x in held]
+    return FR(float(held)) if not isinstance(held, (int, np.integer)) else FR(int(held))
+
+
+def _bezier_from(case, held):
     import mouette as M
-    if case["t"] in ("curve", "cpoly"):
-        return M.splines.BezierCurve([[_num(case, c) for c in p] for p in case["P"]])
-    return M.splines.BezierPatch([[[_num(case, c) for c in p] for p in row] for row in case["P"]])
+    return M.splines.BezierCurve(held) if _is_curve(case) else M.splines.BezierPatch(held)
+
+
+def _bezier_objs(case):
+    return _bezier_from(case, _net_held(case))
+
+
+def _param_obj(s, trep):
+    """a parameter value as the caller passes it"""
+    import numpy as np
+    if s == "nan": return float("nan")
+    v = fl(s)
+    if trep == "pyint" and FR(s) in (0, 1): return int(FR(s))
+    if trep == "f32" and float(np.float32(v)) == v: return np.float32(v)
+    if trep == "np64": return np.float64(v)
+    if trep == "0d": return np.array(v)
+    return v
+
+
+def _do_eval(obj, params, trep):
+    try:
+        return ("p", [float(c) for c in obj.evaluate(*[_param_obj(x, trep) for x in params])])
+    except Exception as e:  # noqa
+        return ("err", _err(e))
+
+
+def _do_poly(obj, n, custom, trep=None):
+    kw = {}
+    if n is not None: kw["n_pts"] = n
+    if custom is not None:
+        if trep == "0d":      # the natural numpy form of a list of positions: a 1-D array
+            import numpy as np
+            kw["custom_pos"] = np.array([fl(x) for x in custom])
+        else:
+            kw["custom_pos"] = [_param_obj(x, trep) for x in custom]
+    out = {"err": None, "exc": None}
+    try:
+        pl = obj.as_polyline(**kw)
+        att = pl.vertices.get_attribute("t")
+        out["verts"] = [[float(c) for c in pl.vertices[i]] for i in range(len(pl.vertices))]
+        out["params"] = [float(att[i]) for i in range(len(pl.vertices))]
+        out["edges"] = sorted(sorted(int(x) for x in e) for e in pl.edges)
+    except Exception as e:  # noqa
+        out["err"] = _err(e); out["exc"] = e
+    return out
+
+
+def _do_surf(obj, n1, n2, noargs=False):
+    out = {"err": None, "exc": None}
+    try:
+        sm = obj.as_surface() if noargs else obj.as_surface(n1, n2)
+        att = sm.vertices.get_attribute("uv_coords")
+        out["verts"] = [[float(c) for c in sm.vertices[i]] for i in range(len(sm.vertices))]
+        out["params"] = [[float(c) for c in att[i]] for i in range(len(sm.vertices))]
+        out["faces"] = [[int(x) for x in f] for f in sm.faces]
+    except Exception as e:  # noqa
+        out["err"] = _err(e); out["exc"] = e
+    return out
+
+
+def _net_values(obj, curve):
+    """exact values of the control net stored in the object (BezierCurve.pts / BezierPatch.pts)"""
+    if curve:
+        return [[FR(float(c)) for c in obj.pts[i]] for i in range(len(obj.pts))]
+    return [[[FR(float(c)) for c in p] for p in row] for row in obj.pts]
+
+
+def run_hist(case):
+    """a history of operations on ONE BezierCurve / BezierPatch object. Returns dict(err, steps=[(op, result)],
+    net_after, held_after): the control net is read back BY VALUE from the object and from the caller-held input."""
+    out = {"err": None, "exc": None, "steps": []}
+    curve = _is_curve(case)
+    trep = case.get("trep")
+    try:
+        held = _net_held(case)
+        obj = _bezier_from(case, held)
+    except Exception as e:  # noqa
+        out["err"] = _err(e); out["exc"] = e
+        return out
+    for op in case["ops"]:
+        k = op[0]
+        if k == "e": r = _do_eval(obj, op[1:], trep)
+        elif k == "poly": r = _do_poly(obj, op[1], None)
+        elif k == "polyc": r = _do_poly(obj, op[1], op[2], trep)
+        elif k == "surf": r = _do_surf(obj, op[1], op[2])
+        else: raise AssertionError(op)
+        out["steps"].append((op, r))
+    try:
+        out["net_after"] = _net_values(obj, curve)
+        out["held_after"] = _held_values(held)
+    except Exception as e:  # noqa
+        out["err"] = _err(e); out["exc"] = e
+    return out
 
 
 def _canon_quads(faces):
@@ -330,42 +605,20 @@ def run_bezier(case):
     """returns dict(err, evals=[('p',[floats])|('err',token)], verts, params, edges/faces)"""
     t = case["t"]
     out = {"err": None, "exc": None}
+    trep = case.get("trep")
     try:
         obj = _bezier_objs(case)
-        if t == "curve":
-            ev = []
-            for s in case["ts"]:
-                tv = float("nan") if s == "nan" else fl(s)
-                try:
-                    ev.append(("p", [float(c) for c in obj.evaluate(tv)]))
-                except Exception as e:  # noqa
-                    ev.append(("err", _err(e)))
-            out["evals"] = ev
-        elif t == "patch":
-            ev = []
-            for (a, b) in case["uv"]:
-                try:
-                    ev.append(("p", [float(c) for c in obj.evaluate(fl(a), fl(b))]))
-                except Exception as e:  # noqa
-                    ev.append(("err", _err(e)))
-            out["evals"] = ev
-        elif t == "cpoly":
-            kw = {}
-            if case.get("n") is not None: kw["n_pts"] = case["n"]
-            if case.get("custom") is not None: kw["custom_pos"] = [fl(x) for x in case["custom"]]
-            pl = obj.as_polyline(**kw)
-            att = pl.vertices.get_attribute("t")
-            out["verts"] = [[float(c) for c in pl.vertices[i]] for i in range(len(pl.vertices))]
-            out["params"] = [float(att[i]) for i in range(len(pl.vertices))]
-            out["edges"] = sorted(sorted(int(x) for x in e) for e in pl.edges)
-        elif t == "psurf":
-            sm = obj.as_surface(case["n1"], case["n2"])
-            att = sm.vertices.get_attribute("uv_coords")
-            out["verts"] = [[float(c) for c in sm.vertices[i]] for i in range(len(sm.vertices))]
-            out["params"] = [[float(c) for c in att[i]] for i in range(len(sm.vertices))]
-            out["faces"] = [[int(x) for x in f] for f in sm.faces]
     except Exception as e:  # noqa
         out["err"] = _err(e); out["exc"] = e
+        return out
+    if t == "curve":
+        out["evals"] = [_do_eval(obj, [x], trep) for x in case["ts"]]
+    elif t == "patch":
+        out["evals"] = [_do_eval(obj, [a, b], trep) for (a, b) in case["uv"]]
+    elif t == "cpoly":
+        out.update(_do_poly(obj, case.get("n"), case.get("custom"), trep))
+    elif t == "psurf":
+        out.update(_do_surf(obj, case["n1"], case["n2"], case.get("noargs", False)))
     return out
 
 
@@ -457,13 +710,13 @@ def model_request(case):
         return " ".join(toks)
     if t == "box":
         d = len(case["lo"])
-        if not isinstance(case["mode"], str) or len(case["hi"]) != d:
+        if not isinstance(_mode(case), str) or len(case["hi"]) != d:
             return None
         res = 0
-        if case["mode"] == "grid" and d > 0 and case["n"] >= 0:
+        if _mode(case) == "grid" and d > 0 and case["n"] >= 0:
             res = _grid_res(case["n"], d)
-        rows = case["u"][:case["n"]] if case["mode"] == "uniform" else []
-        mode_tok = case["mode"] if case["mode"] in ("uniform", "grid") else "invalid"
+        rows = case["u"][:case["n"]] if _mode(case) == "uniform" else []
+        mode_tok = _mode(case) if _mode(case) in ("uniform", "grid") else "invalid"
         toks = ["box", mode_tok, "1" if case.get("pc") else "0", str(d)] + case["lo"] + case["hi"] + [str(res), str(len(rows))]
         for row in rows: toks += list(row)
         return " ".join(toks)
@@ -487,6 +740,11 @@ def model_request(case):
             u1, u2 = case["uu"][i % len(case["uu"])]
             toks += [str(case["f"][i % len(case["f"])] % len(F)), u1, fs(_sqrt(u1)), u2]
         return " ".join(toks)
+    if t in ("chist", "phist"):
+        ev = [op[1:] for op in case["ops"] if op[0] == "e"]
+        if not ev: return None
+        pseudo = {"t": "curve", "P": case["P"], "ts": [e[0] for e in ev]} if t == "chist" else {"t": "patch", "P": case["P"], "uv": [list(e) for e in ev]}
+        return model_request(pseudo)
     if t == "curve":
         if any(s == "nan" for s in case["ts"]): return None
         cm = _coord_major(case["P"])
@@ -536,7 +794,7 @@ def impl_observe(case):
         if t == "box":
             d = len(case["lo"])
             if r["is_pc"]: pts = _strip_pad(pts, d)
-            if case["mode"] == "grid": pts = sorted(pts)
+            if _mode(case) == "grid": pts = sorted(pts)
             return " ".join(x for x in ["ok", str(len(pts)), str(d), _fmt_pts(pts)] if x != "")
         cp = r["stream"].captured_p
         p = cp[0] if cp else []
@@ -547,7 +805,14 @@ def impl_observe(case):
         nr = r["normals"] or []
         h = _hyp(case)
         return " ".join(x for x in head + ["nrm", str(len(nr)), _fmt_pts(nr), "hyp", str(h[0]), str(h[1])] if x != "")
-    r = run_bezier(case)
+    if t in ("chist", "phist"):
+        r = run_hist(case)
+        if r["err"]:
+            return r["err"]
+        r["evals"] = [res for op, res in r["steps"] if op[0] == "e"]
+        t = "curve"
+    else:
+        r = run_bezier(case)
     if r["err"]:
         return r["err"]
     if t in ("curve", "patch"):
@@ -579,7 +844,7 @@ def _is_num(tok):
 def compare(case, model, impl):
     t = case["t"]
     mt, it = model.split(), impl.split()
-    if t == "box" and case.get("mode") == "grid" and mt[:1] == ["ok"] and len(mt) >= 3:
+    if t == "box" and _mode(case) == "grid" and mt[:1] == ["ok"] and len(mt) >= 3:
         # order of grid points is not constrained by the property: compare as sorted point lists
         n, d = int(mt[1]), int(mt[2])
         if d > 0 and len(mt) == 3 + n * d:
@@ -645,21 +910,35 @@ def _in_triangle(p, A, B, C, tol):
 
 
 def _oracle_sampler(case):
+    """every call made on the one domain object must satisfy the statement; a failure that only shows on a later call
+    (reused centre / box / mesh, attributes already on the mesh, vertices moved in between) gets its own key"""
+    calls = run_sampler_all(case)
+    for k, (view, r) in enumerate(calls):
+        fnd = _oracle_call(view, r)
+        if fnd:
+            if k > 0 or case.get("pre_attr"):
+                tag = "/reused-domain" if k > 0 else "/mesh-has-attributes"
+                for f in fnd: f["key"] += tag; f["detail"] = f"call #{k + 1} on the same object: " + f["detail"]
+            return fnd
+    return []
+
+
+def _oracle_call(case, r):
     out = []
     t = case["t"]
     tol = _tol(case)
-    r = run_sampler(case)
+    ptol = 1e-5 if case.get("rep") == "f32" else 1e-9      # relative quantities (probabilities, unit normals)
     n = case["n"]
     # ---- expected rejections ------------------------------------------------------------------
     if t == "box":
         d = len(case["lo"])
         lo, hi = [fr(x) for x in case["lo"]], [fr(x) for x in case["hi"]]
         empty = any(a >= b for a, b in zip(lo, hi))
-        bad_mode = case["mode"] not in ("uniform", "grid")
+        bad_mode = _mode(case) not in ("uniform", "grid")
         must_fail = bad_mode or empty or (d > 3 and case.get("pc"))
         if must_fail:
             if not r["err"]:
-                out.append(_finding("C19/box/accepts-invalid", "sample_AABB accepted an empty box / unknown mode / point cloud of dimension > 3", case["mode"]))
+                out.append(_finding("C19/box/accepts-invalid", "sample_AABB accepted an empty box / unknown mode / point cloud of dimension > 3", case.get("mode")))
             return out
     if r["err"]:
         tag = ""
@@ -671,7 +950,7 @@ def _oracle_sampler(case):
     if any(c is None for p in pts for c in p):
         out.append(_finding(f"C19/{t}/non-finite", "sampler returned NaN/inf coordinates", "")); return out
     # ---- counts -------------------------------------------------------------------------------
-    if t == "box" and case["mode"] == "grid":
+    if t == "box" and _mode(case) == "grid":
         cnt = len(pts); rr = round(cnt ** (1.0 / d)) if cnt else 0
         cand = [x for x in (rr - 1, rr, rr + 1) if x >= 0 and x ** d == cnt]
         okc = bool(cand) and any((x == 0 or (2 * x - 1) ** d <= 2 ** d * n) and 2 ** d * n <= (2 * x + 1) ** d for x in cand)
@@ -701,7 +980,7 @@ def _oracle_sampler(case):
     elif t == "box":
         for i, p in enumerate(pts):
             if any(x < a - FR(tol) or x > b + FR(tol) for x, a, b in zip(p, lo, hi)):
-                out.append(_finding(f"C19/box/{case['mode']}/outside", f"sample_AABB(mode={case['mode']}) point lies outside the box",
+                out.append(_finding(f"C19/box/{_mode(case)}/outside", f"sample_AABB(mode={_mode(case)}) point lies outside the box",
                                     f"point {i}: {[float(x) for x in p]} box {[float(x) for x in lo]}..{[float(x) for x in hi]}")); break
     elif t in ("polyline", "surface"):
         V, EL = _built(case)
@@ -719,9 +998,9 @@ def _oracle_sampler(case):
                 out.append(_finding(f"C19/{t}/probabilities/missing", "numpy.random.choice called without a 1-D probability vector", ""))
             else:
                 p = st.captured_p[0]
-                if len(p) != NE or abs(sum(p) - 1) > 1e-9 or any(x < 0 for x in p):
+                if len(p) != NE or abs(sum(p) - 1) > ptol or any(x < 0 for x in p):
                     out.append(_finding(f"C19/{t}/probabilities/not-a-distribution", "probability vector is not non-negative with sum 1", f"sum={sum(p)!r}"))
-                elif tot > 0 and any(abs(x - w / tot) > 1e-9 for x, w in zip(p, weights)):
+                elif tot > 0 and any(abs(x - w / tot) > ptol for x, w in zip(p, weights)):
                     out.append(_finding(f"C19/{t}/probabilities/not-proportional", "probabilities handed to numpy.random.choice are not proportional to length/area",
                                         f"p={p[:6]} expected={[w / tot for w in weights][:6]}"))
             chosen = [case["e" if t == "polyline" else "f"][i % len(case["e" if t == "polyline" else "f"])] % NE for i in range(n)]
@@ -747,7 +1026,7 @@ def _oracle_sampler(case):
                     c = _cross(_sub(V[f[1]], V[f[0]]), _sub(V[f[2]], V[f[0]]))
                     nn = math.sqrt(_dot(c, c))
                     if nn == 0: continue
-                    if any(abs(float(x) / nn - y) > 1e-9 for x, y in zip(c, nr[i])):
+                    if any(abs(float(x) / nn - y) > ptol for x, y in zip(c, nr[i])):
                         out.append(_finding("C19/surface/normals/wrong-face", "normal attached to a sample is not the unit normal of the face it lies in", f"sample {i}")); break
     return out
 
@@ -781,13 +1060,20 @@ def _close(a, b, tol):
 
 
 def _oracle_eval(case):
-    out = []
-    t = case["t"]
-    tol = _tol(case)
     r = run_bezier(case)
     if r["err"]:
-        return [_finding(f"C19/{t}/construct-raises/{type(r['exc']).__name__}", "constructing the Bezier object raised", r["exc"])]
-    if t == "curve":
+        return [_finding(f"C19/{case['t']}/construct-raises/{type(r['exc']).__name__}", "constructing the Bezier object raised", r["exc"])]
+    return _eval_check(case, r["evals"], case["t"])
+
+
+def _eval_check(case, evals, name):
+    """evaluation results against the Bernstein form of the control points AS GIVEN IN THE CASE (exact Fractions);
+    `case` is a curve/patch (pseudo-)case, `name` the kind used in the finding keys"""
+    out = []
+    r = {"evals": evals}
+    tol = _tol(case)
+    t = name
+    if case["t"] == "curve":
         P = [[fr(c) for c in p] for p in case["P"]]; ctrl = P
         params = [(s,) for s in case["ts"]]
         exact = lambda q: _curve_exact(P, q[0])
@@ -826,10 +1112,13 @@ def _oracle_eval(case):
 
 
 def _oracle_export(case):
+    return _export_check(case, run_bezier(case))
+
+
+def _export_check(case, r):
     out = []
     t = case["t"]
     tol = _tol(case)
-    r = run_bezier(case)
     if t == "cpoly":
         P = [[fr(c) for c in p] for p in case["P"]]
         if case.get("custom") is not None:
@@ -950,8 +1239,47 @@ def _oracle_chi2(case):
     return []
 
 
+def _oracle_hist(case):
+    """a history on ONE object: every evaluation / export in it must satisfy the statement w.r.t. the control points
+    the object was built from (so an operation that alters the net is seen at the next one), and the net itself,
+    read back by value from the object and from the array the caller still holds, must be unchanged at the end"""
+    t = case["t"]
+    r = run_hist(case)
+    if r["err"]:
+        return [_finding(f"C19/{t}/raises/{type(r['exc']).__name__}", "constructing / reading back the Bezier object raised", r["exc"])]
+    out = []
+    curve = t == "chist"
+    base = {k: case[k] for k in ("P", "rep", "trep", "ints") if k in case}
+    ev = [(op, res) for op, res in r["steps"] if op[0] == "e"]
+    if ev:
+        pseudo = dict(base, t="curve", ts=[op[1] for op, _ in ev]) if curve else dict(base, t="patch", uv=[[op[1], op[2]] for op, _ in ev])
+        out += _eval_check(pseudo, [res for _, res in ev], t)
+    for op, res in r["steps"]:
+        if op[0] == "poly": pseudo = dict(base, t="cpoly", n=op[1], custom=None)
+        elif op[0] == "polyc": pseudo = dict(base, t="cpoly", n=op[1], custom=op[2])
+        elif op[0] == "surf": pseudo = dict(base, t="psurf", n1=op[1], n2=op[2])
+        else: continue
+        for f in _export_check(pseudo, res):
+            f["key"] = f["key"].replace("C19/cpoly/", "C19/chist/as_polyline/").replace("C19/psurf/", "C19/phist/as_surface/")
+            out.append(f)
+    want = [[fr(c) for c in p] for p in case["P"]] if curve else [[[fr(c) for c in p] for p in row] for row in case["P"]]
+    if r["net_after"] != want:
+        out.append(_finding(f"C19/{t}/control-net-changed", "evaluating / exporting changed the control points stored in the object",
+                            f"ops {case['ops'][:6]}"))
+    if r["held_after"] != want:
+        out.append(_finding(f"C19/{t}/caller-net-changed", "evaluating / exporting changed the control-point data the caller handed to the constructor",
+                            f"representation {_net_rep(case)}"))
+    # report each key once
+    seen, uniq = set(), []
+    for f in out:
+        if f["key"] not in seen: seen.add(f["key"]); uniq.append(f)
+    return uniq
+
+
 def oracle(case):
     t = case["t"]
+    if t in ("chist", "phist"):
+        return _oracle_hist(case)
     if t in ("sphere", "ball", "box", "polyline", "surface"):
         return _oracle_sampler(case)
     if t in ("curve", "patch"):
@@ -1020,6 +1348,7 @@ def gen_box(rng, big=False):
     else:
         n = rng.choice([0, 1, 2, 3, 5, 8] + ([60] if big else []))
     u = [[_gen_u(rng) for _ in range(d)] for _ in range(max(n if mode != "grid" else 1, 1))]
+    if mode == "uniform" and rng.random() < 0.25: mode = None        # argument omitted
     return {"t": "box", "lo": [fs(x) for x in lo], "hi": [fs(x) for x in hi], "n": n, "mode": mode, "u": u,
             "pc": rng.random() < (0.2 if d <= 3 else 0.35)}
 
@@ -1099,7 +1428,7 @@ def gen_patch(rng, big=False):
 def gen_cpoly(rng, big=False):
     k = rng.choice([0, 1, 2, 3, 4, 5])
     d = rng.choice([2, 3, 3])
-    case = {"t": "cpoly", "P": [_ctrl(rng, d) for _ in range(k + 1)], "n": rng.choice([1, 2, 3, 4, 5, 8, 13] + ([60] if big else [])), "custom": None}
+    case = {"t": "cpoly", "P": [_ctrl(rng, d) for _ in range(k + 1)], "n": rng.choice([0, 1, 2, 3, 4, 5, 8, 13, None] + ([60] if big else [])), "custom": None}
     r = rng.random()
     if r < 0.35:
         m = rng.randint(1, 9)
@@ -1114,7 +1443,96 @@ def gen_psurf(rng, big=False):
     hi = 14 if big else 7
     n1, n2 = rng.randint(1, hi), rng.randint(1, hi)
     if rng.random() < 0.15: n2 = n1
-    return {"t": "psurf", "P": _gen_net(rng, 3), "n1": n1, "n2": n2}
+    if rng.random() < 0.06: n1 = 0
+    if rng.random() < 0.06: n2 = 0
+    c = {"t": "psurf", "P": _gen_net(rng, 3), "n1": n1, "n2": n2}
+    if rng.random() < 0.02:      # as_surface() with its documented defaults
+        c.update(n1=20, n2=20, noargs=True)
+    return c
+
+
+_REPS = {"sphere": ["int", "npint", "f32", "nd"], "ball": ["int", "npint", "f32", "nd"],
+         "box": ["tuple", "ituple", "int", "npint", "f32", "nd"],
+         "polyline": ["int", "npint", "f32"], "surface": ["int", "npint", "f32"],
+         "curve": ["int", "npint", "f32", "nd", "tuple", "ituple"], "patch": ["int", "npint", "f32", "nd", "tuple", "ituple"],
+         "cpoly": ["int", "npint", "f32", "nd", "tuple"], "psurf": ["int", "npint", "f32", "nd", "tuple"],
+         "chist": ["int", "npint", "f32", "nd", "tuple"], "phist": ["int", "npint", "f32", "nd", "tuple"]}
+_TREPS = ["pyint", "f32", "np64", "0d"]
+
+
+def with_rep(rng, case, p=0.4):
+    """with probability p hand the numbers over in another representation (ints, numpy ints, float32, plain ndarray,
+    tuples): the statement quantifies over the values, not over their Python type"""
+    t = case["t"]
+    if rng.random() < p and not (t == "box" and not all(FR(a) < FR(b) for a, b in zip(case["lo"], case["hi"]))):
+        _reprify(case, rng.choice(_REPS[t]))
+    if "P" in case and rng.random() < 0.3:
+        case["trep"] = rng.choice(_TREPS)
+    return case
+
+
+def with_history(rng, case, p=0.3):
+    """with probability p: one or two earlier calls on the same centre / box / mesh object (other counts, options and
+    draws; for meshes possibly attributes already stored on the mesh, or vertices moved between the calls)"""
+    t = case["t"]
+    if rng.random() >= p: return case
+    fresh = {"sphere": lambda: gen_ballsphere(rng, "sphere"), "ball": lambda: gen_ballsphere(rng, "ball"), "box": lambda: gen_box(rng),
+             "polyline": lambda: gen_polyline(rng), "surface": lambda: gen_surface(rng)}[t]
+    keep = {"sphere": ["n", "g", "pc"], "ball": ["n", "g", "u", "pc"], "box": ["n", "pc"],
+            "polyline": ["n", "e", "tt", "pc"], "surface": ["n", "f", "uu", "pc", "normals"]}[t]
+    prior = []
+    for _ in range(rng.choice([1, 1, 2])):
+        o = fresh()
+        pr = {k: o[k] for k in keep}
+        if t == "box":
+            d = len(case["lo"])
+            pr["mode"] = rng.choice(["uniform", "grid", None])
+            pr["n"] = rng.choice([0, 1, 2, 4, 9])
+            pr["u"] = [[_gen_u(rng) for _ in range(d)] for _ in range(max(pr["n"], 1))]
+            if d > 3: pr["pc"] = False
+        prior.append(pr)
+    if t in ("polyline", "surface"):
+        if rng.random() < 0.4: case["pre_attr"] = True       # lengths / areas / normals already stored on the mesh by the user
+        if rng.random() < 0.4:      # the earlier call(s) (and the stored attributes) saw the mesh before the user moved it
+            k = [rng.choice([2, 3, FR(1, 2), 1]) for _ in range(3)]; sh = rng.choice([1, -2, 5])   # anisotropic: area shares change
+            prior[0]["V"] = [[fs(k[j] * FR(c) + sh) for j, c in enumerate(v)] for v in case["V"]]
+            if len(prior) > 1 and rng.random() < 0.5: prior[1]["V"] = prior[0]["V"]
+    case["prior"] = prior
+    return case
+
+
+def _hist_t(rng):
+    r = rng.random()
+    if r < 0.15: return "0"
+    if r < 0.3: return "1"
+    return fs(FR(rng.randrange(2 ** 10 + 1), 2 ** 10))
+
+
+def gen_chist(rng, big=False):
+    """several evaluations / exports on one BezierCurve; ends with the end points again"""
+    k = rng.choice([1, 2, 2, 3, 3, 4, 5])
+    d = rng.choice([2, 3, 3])
+    ops = []
+    for _ in range(rng.randint(2, 9 if big else 6)):
+        r = rng.random()
+        if r < 0.6: ops.append(["e", _hist_t(rng)])
+        elif r < 0.85: ops.append(["poly", rng.choice([0, 1, 2, 3, 5, 8])])
+        else:
+            cs = sorted(FR(rng.randrange(2 ** 8 + 1), 2 ** 8) for _ in range(rng.randint(1, 5)))
+            ops.append(["polyc", rng.choice([None, len(cs)]), [fs(x) for x in cs]])
+    if rng.random() < 0.5 and ops: ops.append(list(ops[0]))      # the very same request again
+    ops += [["e", "0"], ["e", "1"]]
+    return {"t": "chist", "P": [_ctrl(rng, d) for _ in range(k + 1)], "ops": ops}
+
+
+def gen_phist(rng, big=False):
+    ops = []
+    for _ in range(rng.randint(2, 7 if big else 5)):
+        if rng.random() < 0.7: ops.append(["e", _hist_t(rng), _hist_t(rng)])
+        else: ops.append(["surf", rng.randint(0, 5), rng.randint(0, 5)])
+    if rng.random() < 0.5 and ops: ops.append(list(ops[0]))
+    ops += [["e", "0", "0"], ["e", "1", "0"], ["e", "0", "1"], ["e", "1", "1"]]
+    return {"t": "phist", "P": _gen_net(rng, 3), "ops": ops}
 
 
 def gen_chi2(rng, kind):
@@ -1134,11 +1552,14 @@ def cases(rng, tier):
     gens = {"sphere": lambda: gen_ballsphere(rng, "sphere", big), "ball": lambda: gen_ballsphere(rng, "ball", big), "box": lambda: gen_box(rng, big),
             "polyline": lambda: gen_polyline(rng, big), "surface": lambda: gen_surface(rng, big), "curve": lambda: gen_curve(rng, big),
             "patch": lambda: gen_patch(rng, big), "cpoly": lambda: gen_cpoly(rng, big), "psurf": lambda: gen_psurf(rng, big)}
+    ns.update({"chist": 1500, "phist": 800} if big else {"chist": 150, "phist": 80})
+    gens.update({"chist": lambda: gen_chist(rng, big), "phist": lambda: gen_phist(rng, big)})
     for k, n in ns.items():
         for _ in range(n):
             c = gens[k]()
-            if k in ("curve", "patch", "cpoly", "psurf") and rng.random() < 0.2:
-                _integerise(c)       # control points given as Python ints: evaluation must not inherit an integer dtype
+            if k in ("sphere", "ball", "box", "polyline", "surface"):
+                with_history(rng, c)
+            with_rep(rng, c)         # ints / numpy ints / float32 / ndarray / tuples: results must not depend on the type
             yield c
     if big:
         for kind in ("polyline", "polyline", "surface", "surface"):
@@ -1155,6 +1576,10 @@ def search_on_break(rng, broken, mismatches):
     for _ in range(20): yield gen_cpoly(rng)
     for _ in range(20): yield _integerise(gen_curve(rng))
     for _ in range(10): yield _integerise(gen_patch(rng))
+    for _ in range(40): yield with_rep(rng, gen_chist(rng), p=0.6)
+    for _ in range(25): yield with_rep(rng, gen_phist(rng), p=0.6)
+    for g in (lambda: gen_ballsphere(rng, "sphere"), lambda: gen_ballsphere(rng, "ball"), lambda: gen_box(rng), lambda: gen_polyline(rng), lambda: gen_surface(rng)):
+        for _ in range(25): yield with_rep(rng, with_history(rng, g(), p=0.7), p=0.7)
     for r in _RADII:
         c = gen_ballsphere(rng, "ball"); c["r"] = r; c["n"] = 4; c["g"] = [_gen_dir(rng) for _ in range(4)]
         c["u"] = [fs(ONE_MINUS), "1/8", "343/512", _gen_u(rng)]; yield c
@@ -1176,6 +1601,7 @@ def nontrivial(case, obs):
     if t in ("sphere", "ball", "box"): return int(toks[1]) >= 1
     if t in ("polyline", "surface"): return case["n"] >= 1
     if t in ("curve", "patch"): return " p " in obs
+    if t in ("chist", "phist"): return " p " in obs and len(case["ops"]) >= 3
     if t == "cpoly": return int(toks[toks.index("E") + 1]) >= 1
     if t == "psurf": return int(toks[toks.index("F") + 1]) >= 1
     return False
@@ -1184,6 +1610,24 @@ def nontrivial(case, obs):
 def classify(case, obs):
     t = case["t"]
     ks = ["kind:" + t]
+    if t != "chi2":
+        ks.append(f"rep:{'bezier' if 'P' in case else t}:{_net_rep(case) if 'P' in case else (case.get('rep') or 'float')}")
+        if case.get("trep"): ks.append("param-rep:" + case["trep"])
+    if case.get("prior"):
+        ks.append(f"history:{t}:{len(case['prior'])}-earlier-calls")
+        if any("V" in p for p in case["prior"]): ks.append("history:vertices-moved-between-calls")
+    if case.get("pre_attr"): ks.append("history:mesh-already-has-attributes")
+    if t in ("chist", "phist"):
+        ks.append(f"history:{t}:ops={min(len(case['ops']), 9)}")
+        ks += [f"history:{t}:op-{op[0]}" for op in case["ops"]]
+        if any(op[0] in ("poly", "surf") and 0 in op[1:3] for op in case["ops"]): ks.append("history:export-n=0")
+        if not obs.startswith("ok"): ks.append(f"{t}:{obs.split()[0]}")
+        return ks
+    if t == "box" and case.get("mode") is None: ks.append("box:mode=default(omitted)")
+    if t == "psurf" and case.get("noargs"): ks.append("psurf:default-arguments")
+    if t == "psurf" and 0 in (case["n1"], case["n2"]): ks.append("psurf:n=0")
+    if t == "cpoly" and case.get("custom") is None and case.get("n") is None: ks.append("cpoly:default-n_pts")
+    if t == "cpoly" and case.get("n") == 0 and case.get("custom") is None: ks.append("cpoly:n=0")
     if not obs.startswith("ok") and t != "chi2": ks.append(f"{t}:{obs.split()[0]}")
     if t in ("sphere", "ball"):
         ks += [f"{t}:{_rtag(case['r'])}", f"{t}:n={'0' if case['n'] == 0 else '1' if case['n'] == 1 else '2+'}"]
@@ -1191,9 +1635,9 @@ def classify(case, obs):
         h = _hyp(case)[0]
         ks.append(f"{t}:hyp-exact-draws" if h else f"{t}:hyp-rounded-only")
     elif t == "box":
-        ks += [f"box:d={len(case['lo'])}", f"box:mode={case['mode'] if case['mode'] in ('uniform', 'grid') else 'invalid'}"]
+        ks += [f"box:d={len(case['lo'])}", f"box:mode={_mode(case) if _mode(case) in ('uniform', 'grid') else 'invalid'}"]
         if case.get("pc"): ks.append("box:pointcloud")
-        if case["mode"] == "grid" and obs.startswith("ok"):
+        if _mode(case) == "grid" and obs.startswith("ok"):
             cnt = int(obs.split()[1]); ks.append("box:grid-count=" + ("0" if cnt == 0 else "1" if cnt == 1 else "n" if cnt == case["n"] else "!=n"))
     elif t in ("polyline", "surface"):
         ks += [f"{t}:{case.get('tag', '?').split('+')[0]}", f"{t}:n={'0' if case['n'] == 0 else '1+'}"]
@@ -1215,7 +1659,8 @@ def classify(case, obs):
 
 
 def describe(case):
-    d = {k: v for k, v in case.items() if k in ("t", "c", "r", "n", "lo", "hi", "mode", "pc", "normals", "tag", "n1", "n2", "ts", "uv", "custom")}
+    d = {k: v for k, v in case.items() if k in ("t", "c", "r", "n", "lo", "hi", "mode", "pc", "normals", "tag", "n1", "n2", "ts", "uv", "custom", "rep", "trep", "ops", "pre_attr", "noargs")}
+    if case.get("prior"): d["prior_calls"] = [{k: v for k, v in p.items() if k in ("n", "pc", "normals", "mode")} | ({"moved": True} if "V" in p else {}) for p in case["prior"]]
     for k in ("g", "u", "V", "E", "F", "P", "e", "f", "tt", "uu"):
         if k in case: d[k + "_len"] = len(case[k])
     return d
@@ -1224,7 +1669,21 @@ def describe(case):
 def shrink(case, still):
     t = case["t"]
     cur = case
-    if t in ("sphere", "ball", "polyline", "surface") or (t == "box" and case.get("mode") == "uniform"):
+    if t in ("chist", "phist"):
+        ops = list(case["ops"]); i = 0
+        while i < len(ops) and len(ops) > 1:
+            trial = dict(case, ops=ops[:i] + ops[i + 1:])
+            if still(trial): ops = trial["ops"]
+            else: i += 1
+        return dict(case, ops=ops)
+    if cur.get("prior"):
+        for trial in (dict({k: v for k, v in cur.items() if k != "prior"}), dict(cur, prior=cur["prior"][:1]), dict(cur, prior=cur["prior"][-1:])):
+            if still(trial): cur = trial; break
+    if cur.get("pre_attr"):
+        trial = {k: v for k, v in cur.items() if k != "pre_attr"}
+        if still(trial): cur = trial
+    case = cur
+    if t in ("sphere", "ball", "polyline", "surface") or (t == "box" and _mode(case) == "uniform"):
         keys = {"sphere": ["g"], "ball": ["g", "u"], "box": ["u"], "polyline": ["e", "tt"], "surface": ["f", "uu"]}[t]
         n = case["n"]
         for i in range(min(n, len(case[keys[0]]))):
